@@ -22,7 +22,7 @@ for id in $ids; do
     if [ "$expect" = "PASS" ]; then
       if [ $rc -eq 0 ]; then echo "SELFTEST $id $(basename $p): ok (still passes)"; else echo "SELFTEST $id $(basename $p): FALSE ALARM rc=$rc"; echo "$out" | grep -E "FAILED|BROKEN" | head -5; fail=$((fail+1)); fi
     else
-      if [ $rc -eq 1 ] && echo "$out" | grep -q "FAILED.*$expect"; then
+      if [ $rc -eq 1 ] && echo "$out" | grep -Eq "FAILED.*($expect)"; then
         conf=$(echo "$out" | grep -c "^VIOLATION.*json$")
         echo "SELFTEST $id $(basename $p): ok (caught: $expect; replay-confirmed lines: $conf)"
       else
